@@ -29,6 +29,7 @@ type c02Stats struct {
 	checks, nontrivial                                        int
 	mixedReq, exclusive, exclusiveEmpty, selMixed, frozen     int
 	unapplied, jailed, maxLtEligible, eligLtSnap, addonActive int
+	splitRefused                                              int
 	multiGeo, expectedErr, polWithReqs2, sharedCache, iff     int
 	notPaired, allPaired                                      int
 }
@@ -145,6 +146,9 @@ func checkPairing(rt *rapid.T, c *ev.Collector, w *chain.World, dk devKey, chain
 			nEligible++
 		} else {
 			reasons[snap[i].Address] = why
+			if !eff.AnyMixed && splitSupport(&snap[i], eff.Reqs) {
+				st.splitRefused++
+			}
 		}
 		if snap[i].IsFrozen() {
 			sawFrozen = true
@@ -307,6 +311,7 @@ func TestC02(t *testing.T) {
 		}
 		add(st.mixedReq, "mixed-requirement")
 		add(st.addonActive, "mandatory-addon-requirement")
+		add(st.splitRefused, "entry-serving-addon-and-extension-on-different-endpoints-refused")
 		add(st.polWithReqs2, "requirements-in-2+-policies")
 		add(st.exclusive, "selected-exclusive")
 		add(st.exclusiveEmpty, "selected-exclusive-empty-list")
